@@ -560,6 +560,11 @@ func GetParentForEntry(storer gitstore.Storer, entry Entry) (Entry, error) {
 	parentID = parentIDs[0]
 	parentEntry, err := GetEntry(storer, parentID)
 	if err != nil {
+		if errors.Is(err, ErrRSLEntryNotFound) {
+			// The entry names this parent, so failing to load it does not
+			// mean the log ends here
+			return nil, fmt.Errorf("unable to load parent RSL entry '%s': %s", parentID.String(), err.Error())
+		}
 		return nil, err
 	}
 
@@ -648,7 +653,14 @@ func GetLatestEntry(storer gitstore.Storer) (Entry, error) {
 		return nil, err
 	}
 
-	return GetEntry(storer, commitID)
+	entry, err := GetEntry(storer, commitID)
+	if err != nil && errors.Is(err, ErrRSLEntryNotFound) {
+		// The RSL reference exists, so failing to load its tip does not mean
+		// the log is empty
+		return nil, fmt.Errorf("unable to load latest RSL entry '%s': %s", commitID.String(), err.Error())
+	}
+
+	return entry, err
 }
 
 // GetLatestReferenceUpdaterEntry returns the latest reference updater entry in
